@@ -986,3 +986,23 @@ V('c12-last-packet-questions-only', 'C12', 'C12.ROUTE', QHF,
   "        questions = [question for msg in msgs for question in msg._questions]\n", "        questions = msgs[-1]._questions\n", names=['async_response'])
 V('c12-twin-questions-extend-loop', 'C12', 'C12.ROUTE', QHF,
   "        questions = [question for msg in msgs for question in msg._questions]\n", "        questions = []\n        for packet in msgs:\n            questions.extend(packet._questions)\n", expect='silent')
+
+# ---------------------------------------------------------------- defects F21-F23 re-introduced
+V('c18-single-pick-srv', 'C18', 'C18.BOUND', INF,
+  "        for cached_srv_record in cache.get_all_by_details(self._name, _TYPE_SRV, _CLASS_IN):\n            self._process_record_threadsafe(zc, cached_srv_record, now)\n",
+  "        cached_srv_record = cache.get_by_details(self._name, _TYPE_SRV, _CLASS_IN)\n        if cached_srv_record:\n            self._process_record_threadsafe(zc, cached_srv_record, now)\n", names=['_load_from_cache'])
+V('c18-single-pick-txt', 'C18', 'C18.BOUND', INF,
+  "        for cached_txt_record in cache.get_all_by_details(self._name, _TYPE_TXT, _CLASS_IN):\n            self._process_record_threadsafe(zc, cached_txt_record, now)\n",
+  "        cached_txt_record = cache.get_by_details(self._name, _TYPE_TXT, _CLASS_IN)\n        if cached_txt_record:\n            self._process_record_threadsafe(zc, cached_txt_record, now)\n", names=['_load_from_cache'])
+V('c09-defaulted-host-stays', 'C09', 'C09.ORDER', INF,
+  "        if self.server_key is not None and self.server_key == self.key:\n            # The host name was defaulted to the instance name (see\n            # set_server_if_missing), so it follows the instance name\n            self.server = name\n            self.server_key = name.lower()\n            self._dns_address_cache = None\n            self._get_address_and_nsec_records_cache = None\n", "", names=['ServiceInfo.name'])
+V('c09-defaulted-host-compared-after-rename', 'C09', 'C09.ORDER', INF,
+  "        self._name = name\n        self.key = name.lower()\n        self._dns_service_cache = None\n",
+  "        self._name = name\n        self.key = name.lower()\n        if self.server_key is not None and self.server_key == self.key:\n            self.server = name\n            self.server_key = name.lower()\n        self._dns_service_cache = None\n", names=['ServiceInfo.name'],
+  more=[(INF, "        if self.server_key is not None and self.server_key == self.key:\n            # The host name was defaulted to the instance name (see\n            # set_server_if_missing), so it follows the instance name\n            self.server = name\n            self.server_key = name.lower()\n            self._dns_address_cache = None\n            self._get_address_and_nsec_records_cache = None\n", "")])
+V('c11-duplicate-guard-ignores-source', 'C11', 'C11.ROUTE', LSF,
+  "            and self.last_addrs == addrs\n", "", names=['_process_datagram_at_time'])
+V('c16-duplicate-guard-ignores-source', 'C16', 'C16.GUARD', LSF,
+  "            and self.last_addrs == addrs\n", "", names=['_process_datagram_at_time'])
+V('c16-source-not-remembered', 'C16', 'C16.GUARD', LSF,
+  "        self.last_addrs = addrs\n", "", names=['_process_datagram_at_time'])
